@@ -26,6 +26,7 @@ Nothing in cherrypy is patched; the subclasses only replace what would need a re
 """
 import copy
 import sys
+import zlib
 
 from . import common
 from . import pipeline_common as pc
@@ -781,7 +782,7 @@ def targeted_plans():
         for slot in priority_slots(ch):
             for v in PRIO_BOUNDARY:
                 for refs_after in (0, 1):
-                    if refs_after and (hash((ch, slot, repr(v))) % 3):
+                    if refs_after and (zlib.crc32(repr((ch, slot, v)).encode()) % 3):
                         continue        # the second variant for a third of the combinations
                     nid = [0]
                     pt = 2
